@@ -126,6 +126,13 @@ impl Shared {
         let mut s = self.m.lock().unwrap();
         let prev = s.current;
         s.current = None;
+        // determinism: let notified threads arrive (they become Runnable at CondWaitExit) before
+        // choosing, so the candidate set does not depend on OS wake-up latency
+        let t0 = std::time::Instant::now();
+        while s.pending_wake() && s.deadlock.is_none() && t0.elapsed().as_millis() < 200 {
+            let (g, _) = self.cv.wait_timeout(s, std::time::Duration::from_micros(200)).unwrap();
+            s = g;
+        }
         loop {
             if s.deadlock.is_some() {
                 // let everybody run free so threads that can finish do finish
@@ -186,13 +193,13 @@ impl Shared {
         };
         match e {
             Event::BeforeLock { frame, site, probe } => {
+                self.m.lock().unwrap().note(format!("T{me} lock f{frame} {site}"));
                 loop {
                     {
                         let mut s = self.m.lock().unwrap();
                         if s.deadlock.is_some() {
                             return;
                         }
-                        s.note(format!("T{me} lock f{frame} {site}"));
                         s.threads[me].1 = TState::Runnable;
                     }
                     self.reschedule(me, true);
@@ -234,12 +241,7 @@ impl Shared {
                     if s.deadlock.is_some() {
                         return;
                     }
-                    // if nobody holds the baton (the scheduler is waiting for us), take part
-                    if s.current.is_none() {
-                        drop(s);
-                        self.reschedule(me, true);
-                        return;
-                    }
+                    // whoever is rescheduling waits for us to become Runnable
                     self.cv.notify_all();
                     while s.current != Some(me) && s.deadlock.is_none() {
                         s = self.cv.wait(s).unwrap();
@@ -511,7 +513,7 @@ pub fn run(args: &Args) -> i32 {
             case.obs("context_switches", switches);
             case.obs("switches_inside_rendering_window", inside);
             case.obs("render_executions", counts.values().map(|&v| v as u64).sum());
-            let tail = |t: &Vec<String>| t[t.len().saturating_sub(25)..].to_vec();
+            let tail = |t: &Vec<String>| t[t.len().saturating_sub(60)..].to_vec();
             match outcome {
                 "deadlock" => {
                     case.violation(
@@ -550,7 +552,8 @@ pub fn run(args: &Args) -> i32 {
                     }
                     Err(e) => {
                         if !with_fault {
-                            case.violation("unexpected-error", format!("caller {ti} keyframe {k}: {e} without any injected fault; scripts {:?}; trace tail {:?} [{}]", scripts, tail(&trace), anim.desc));
+                            let sig = if e.contains("frame data is incomplete") { "spurious-error:IncompleteFrame" } else { "unexpected-error" };
+                            case.violation(sig, format!("caller {ti} keyframe {k}: {e} without any injected fault; scripts {:?}; trace tail {:?} [{}]", scripts, tail(&trace), anim.desc));
                             return;
                         }
                         case.obs("err_results_under_fault", 1);
